@@ -129,6 +129,10 @@ func c02Cfgs() []*bsCfg {
 			Ops: []bsOp{T(1, 1, sec), S(1, 2), T(1, 1, 90*sec), S(2, 1), D(1)}},
 		{Name: "m3-3c", MaxSize: 3, ChanSize: 2, BufSize: 2, NClients: 3, OpsPer: 1, Depth: 10, Ticks: 1, TickNs: 1100 * 1e6,
 			Ops: []bsOp{S(1, 1), S(1, 3), T(1, 2, sec), S(2, 2), D(1)}},
+		// reads drained into the policy (read-buffer capacity rewritten to 2: every second hit drains), so that
+		// entries reach the protected region before costs change
+		{Name: "m3-reads", MaxSize: 3, ChanSize: 2, BufSize: 2, NClients: 1, OpsPer: 7, Depth: 16,
+			Ops: []bsOp{S(1, 1), S(2, 1), S(3, 1), {"get", 1, 0, 0}, S(2, 3), S(2, 2)}},
 		{Name: "m2-q1", MaxSize: 2, ChanSize: 1, BufSize: 1, NClients: 3, OpsPer: 1, Depth: 10,
 			Ops: []bsOp{S(1, 1), S(1, 2), S(2, 2), S(3, 1), D(1), D(2)}},
 	}
@@ -185,8 +189,8 @@ func c02IcbDrivers() []*icCfg {
 	tick := icOp{Kind: "tick", Arg: 2 * sec}
 	o := hOpts{MaxSize: 3, ChanSize: 2, BufSize: 2}
 	return []*icCfg{
-		{Name: "ttl-window", O: o, Pre: []icOp{T(1, 1, sec), {Kind: "wait"}}, Scripts: [][]icOp{{tick}, {T(1, 1, 90 * sec), S(1, 2)}}},
-		{Name: "ttl-window-new", O: o, Scripts: [][]icOp{{T(1, 1, sec), tick}, {T(1, 2, 90 * sec)}}},
+		{Name: "ttl-window", O: o, Pre: []icOp{T(1, 1, sec), {Kind: "wait"}}, Scripts: [][]icOp{{tick}, {T(1, 1, 90*sec), S(1, 2)}}},
+		{Name: "ttl-window-new", O: o, Scripts: [][]icOp{{T(1, 1, sec), tick}, {T(1, 2, 90*sec)}}},
 		{Name: "cost-updates", O: o, Pre: []icOp{S(2, 1)}, Scripts: [][]icOp{{S(1, 1), S(1, 3)}, {S(1, 2), D(2)}, {S(4, 1)}}},
 	}
 }
